@@ -155,3 +155,36 @@ func VerifHarness_C17_ArgumentsArriveAsEvaluated() {
 	}
 	verifrt.Reach("end")
 }
+
+// C17: a variable supplied through options evaluates to exactly the supplied value - also after a collection function
+// was applied to it: %v.distinct() and its relatives work on %v's items, they do not rearrange the variable.
+func VerifHarness_C17_VariableKeepsItsValueAfterUse() {
+	verifrt.IgnorePanics()
+	t := verifFullTable()
+	menu := []string{"distinct", "isDistinct", "intersect", "exclude", "tail", "skip", "take", "first", "last"}
+	name := menu[verifrt.Choose("fn", len(menu))]
+	verifrt.Tag("fnName", name)
+	fn, ok := t[name]
+	verifrt.Assume(ok)
+	supplied := make(system.Collection, 0, 4)
+	for i := 0; i < 3; i++ {
+		supplied = append(supplied, system.Integer(verifrt.NondetIntRange("v.i", 0, 1)))
+	}
+	saved := append(system.Collection{}, supplied...)
+	ctx := &expr.Context{ExternalConstants: map[string]any{"v": supplied}}
+	variable := &expr.ExternalConstantExpression{Identifier: "v"}
+	input, err := variable.Evaluate(ctx, system.Collection{})
+	verifrt.Assert(err == nil, "supplied-variable-evaluates")
+	var args []expr.Expression
+	if fn.MinArity >= 1 {
+		args = append(args, &expr.LiteralExpression{Literal: system.Integer(verifrt.NondetIntRange("arg.i", 0, 1))})
+	}
+	fn.Func(ctx, input, args...)
+	again, err := variable.Evaluate(ctx, system.Collection{})
+	same := err == nil && len(again) == len(saved)
+	for i := 0; same && i < len(saved); i++ {
+		same = again[i] == saved[i]
+	}
+	verifrt.Assert(same, "variable-evaluates-to-the-supplied-value-after-use")
+	verifrt.Reach("end")
+}
